@@ -8,7 +8,9 @@
               of that number (VerifyTransaction only admits Source == Address.GetHexString()).
      tnonce = Nonce, trid = RequestId (0 = JSON-RPC transaction, nonce-checked when packing).
    Pool state: received = gmap.ListMap in insertion order (values), executed = the executed store as an
-   association list hash -> stored tx, evicted = the evicted-hash cache (LRU bound of 1000 not modelled). *)
+   association list hash -> stored tx, evicted = the evicted-hash cache (LRU bound of 1000 not modelled).
+   Further down: the background expiry (ring counters, growRing) and the fine-grained semantics under the
+   pool lock. *)
 From Coq Require Import List NArith Lia Bool.
 Import ListNotations.
 Local Open Scope N_scope.
@@ -188,9 +190,10 @@ Definition step (lim : N) (s : pool) (o : op) : pool :=
 Definition run (lim : N) (s : pool) (ops : list op) : pool := fold_left (step lim) ops s.
 
 (* ---------- fine-grained semantics: add = check ; push, performed by thread [tid] ---------- *)
-(* The Go code takes no pool-level lock: isTransactionExisted and received.push are two separately
-   synchronised calls, and AddTransaction runs on network goroutines while MarkExecuted runs on the
-   chain goroutine. *)
+(* The code BEFORE the fix (/repo commit "fix: TxPool serialises ...") took no pool-level lock:
+   isTransactionExisted and received.push are two separately synchronised calls, and AddTransaction runs
+   on network goroutines while MarkExecuted runs on the chain goroutine.  These unlocked steps are kept to
+   state what the lock excludes (C17_race_refuted); the repaired code is [lstep] below. *)
 Inductive fop :=
 | FCheck (tid : N) (t : tx)   (* pool.isTransactionExisted(tx.Hash), result kept by the thread *)
 | FPush (tid : N)             (* pool.received.push(tx) if the check said "not existed" *)
